@@ -45,6 +45,11 @@ def make_series(r, trial):
     intraday = trial % 3 == 0
     if intraday:
         dates = pd.DatetimeIndex(sorted(pd.Timestamp("2020-01-01") + pd.to_timedelta(np.sort(r.choice(24 * 60 * L, size=L * 2, replace=False)), unit="m")))
+        if trial % 9 == 6:
+            # sparse intraday: business-daily closes with an occasional extra midday print (fewer observations than calendar days)
+            days = pd.bdate_range("2020-01-01", periods=max(L // 2, 4)) + pd.Timedelta(hours=16)
+            extra = [d - pd.Timedelta(hours=4) for i, d in enumerate(days) if i % 5 == 2]
+            dates = pd.DatetimeIndex(sorted(list(days) + extra))
         if trial % 6 == 3:
             # a timezone-aware intraday index (fixed offset, no DST): the calendar day of an observation is its local day
             dates = dates.tz_localize(["Etc/GMT-10", "Etc/GMT+9"][(trial // 6) % 2])
